@@ -94,6 +94,10 @@ type ProofObs struct {
 	Err   string   `json:"err,omitempty"`
 	ByLER int64    `json:"byler"` // GetRootByLER(root).Index, -1 when not found
 }
+type ExtraObs struct {
+	Q string `json:"q"` // which query
+	D string `json:"d"` // digest of its canonical answer
+}
 type Snap struct {
 	Last      uint64     `json:"last"`
 	LastErr   string     `json:"last_err,omitempty"`
@@ -106,6 +110,7 @@ type Snap struct {
 	BridgesPg []RowObs   `json:"bridges_paged"`
 	ClaimsPg  []RowObs   `json:"claims_paged"`
 	Proofs    []ProofObs `json:"proofs"`
+	Extra     []ExtraObs `json:"extra"` // digests of further facade answers (paged listings with filters, block by LER): judged against the twin only
 	MemLast   int64      `json:"mem_last"`
 	Halted    bool       `json:"halted"`
 }
@@ -289,6 +294,7 @@ func (r *runner) snap() Snap {
 		sn.ClaimsPg = append(sn.ClaimsPg, RowObs{Block: c.BlockNum, Pos: c.BlockPos, Tag: c.GlobalIndex.Uint64()})
 	}
 	sortRows(sn.ClaimsPg)
+	sn.Extra = r.extraQueries(seenRoots)
 	if r.proofs != "" {
 		for ri, root := range seenRoots {
 			for idx := uint32(0); idx <= root.Index; idx++ {
@@ -314,6 +320,88 @@ func (r *runner) snap() Snap {
 		}
 	}
 	return sn
+}
+
+// further facade queries whose answers are compared between the run under test and its twin (C04/C07 "every query ... paged listings"):
+// each answer is canonicalised to a string and digested
+func (r *runner) extraQueries(roots []treetypes.Root) []ExtraObs {
+	ctx, s := r.ctx, r.s
+	var out []ExtraObs
+	dig := func(name string, v any, err error) {
+		b, _ := json.Marshal(v)
+		e := ""
+		if err != nil {
+			e = errClass(err)
+			if strings.HasPrefix(e, "error:") {
+				e = "error"
+			}
+		}
+		h := crypto.Keccak256([]byte(name), b, []byte(e))
+		out = append(out, ExtraObs{Q: name, D: hlib.Hex(h[:8])})
+	}
+	type brow struct {
+		B, P uint64
+		DC   uint32
+	}
+	for _, size := range []uint32{1, 2, 3} {
+		for page := uint32(1); page <= 3; page++ {
+			bp, n, err := s.GetBridgesPaged(ctx, page, size, nil, nil, "")
+			rows := []brow{}
+			for _, b := range bp {
+				rows = append(rows, brow{b.BlockNum, b.BlockPos, b.DepositCount})
+			}
+			dig(fmt.Sprintf("bridges/%d/%d/%d", page, size, n), rows, err)
+			cp, n2, err2 := s.GetClaimsPaged(ctx, page, size, nil, "")
+			crow := []brow{}
+			for _, c := range cp {
+				crow = append(crow, brow{c.BlockNum, c.BlockPos, 0})
+			}
+			if size > 1 { // ORDER BY block_num only: order inside a block is unspecified, canonicalise one page by sorting
+				sort.Slice(crow, func(i, j int) bool {
+					if crow[i].B != crow[j].B {
+						return crow[i].B < crow[j].B
+					}
+					return crow[i].P < crow[j].P
+				})
+			}
+			_ = n2
+			dig(fmt.Sprintf("claimscount/%d/%d", page, size), n2, err2)
+		}
+	}
+	for dc := uint64(0); dc <= uint64(r.maxDC+1) && dc < 6; dc++ {
+		d := dc
+		bp, n, err := s.GetBridgesPaged(ctx, 1, 10, &d, nil, "")
+		rows := []brow{}
+		for _, b := range bp {
+			rows = append(rows, brow{b.BlockNum, b.BlockPos, b.DepositCount})
+		}
+		dig(fmt.Sprintf("bridges-dc/%d/%d", dc, n), rows, err)
+	}
+	for _, nets := range [][]uint32{{0}, {1, 2}, {0xffffffff}} {
+		bp, n, err := s.GetBridgesPaged(ctx, 1, 100, nil, nets, "")
+		rows := []brow{}
+		for _, b := range bp {
+			rows = append(rows, brow{b.BlockNum, b.BlockPos, b.DepositCount})
+		}
+		dig(fmt.Sprintf("bridges-net/%v/%d", nets, n), rows, err)
+	}
+	for page := uint32(1); page <= 2; page++ {
+		_, n, err := s.GetTokenMappings(ctx, page, 2)
+		dig(fmt.Sprintf("tm/%d", page), n, err)
+		_, n2, err2 := s.GetLegacyTokenMigrations(ctx, page, 2)
+		dig(fmt.Sprintf("legacy/%d", page), n2, err2)
+	}
+	for _, root := range roots {
+		blk, err := s.GetBlockByLER(ctx, root.Hash)
+		dig("blockbyler/"+hlib.Hex(root.Hash[:4]), blk, err)
+		rr, err2 := s.GetBridgeRootByHash(ctx, root.Hash)
+		var idx int64 = -1
+		if rr != nil {
+			idx = int64(rr.Index)
+		}
+		dig("rootbyhash/"+hlib.Hex(root.Hash[:4]), idx, err2)
+	}
+	return out
 }
 
 func sortRows(rs []RowObs) {
